@@ -598,6 +598,6 @@ class Spec(PropSpec):
 
 THEOREMS = ["c12_pairing", "c12_syn_token_unique", "c12_poll_decided", "c12_fifo", "c12_accept_first_alive", "c12_accept_result",
             "c12_refused_unowned", "c12_refused_partitioned", "c12_refused_no_listener", "c12_refused_listener_dropped",
-            "c12_refused_removes_entry", "c12_no_residue", "c12_cancel_removes_entry", "c12_nonvacuous"]
+            "c12_refused_removes_entry", "c12_no_residue", "c12_cancel_removes_entry", "c12_abandon_resets_acceptor", "c12_nonvacuous"]
 Spec.theorems = THEOREMS
 SPEC = Spec()
